@@ -696,7 +696,8 @@ pub fn gen_ops(rng: &mut Rng, len: usize) -> Vec<String> {
             10 => {
                 // multi-entry allowlist removals whose last entry is absent / duplicated
                 ops.push(format!("al add {}", rng.pick(&["g", "gg", "gx"])));
-                ops.push(format!("al rm {}", rng.pick(&["gx", "xg", "g2g", "ggd", "gg"])));
+                ops.push(format!("al rm {}", rng.pick(&["gx", "xg", "g2g", "ggd", "gg", "m"])));
+                if rng.chance(1, 2) { ops.push(format!("al {} m", rng.pick(&["add", "rm", "set"]))); }
                 continue;
             }
             9 if ops.len() < 4 => {
